@@ -26,7 +26,7 @@ INFO = dict(
          'pool max_watermark=1 through the public builder ReplaceRole() in the pool-queue scenario'],
   assumptions=['A1-A5'],
 )
-EXPECT_COVERS = ['T:timeout-while-opening', 'T:timeout-in-pool-queue', 'T:timeout-while-connecting', 'M:timeout-in-send-queue',
+EXPECT_COVERS = ['M:timeout-during-own-blocked-write', 'T:timeout-while-opening', 'T:timeout-in-pool-queue', 'T:timeout-while-connecting', 'M:timeout-in-send-queue',
                  'M:timeout-on-the-wire-discarded', 'M:timeout-while-opening']
 
 
@@ -38,6 +38,7 @@ def jobs(tier):
   js.append(dict(name='T-connect-wait', stack='T', sc='connect', cost=1000, shards=8, shard_depth=3))
   js.append(dict(name='M-send-queue', stack='M', sc='sendq', cost=1000, shards=8, shard_depth=3))
   js.append(dict(name='M-on-the-wire', stack='M', sc='wire', cost=500, shards=4, shard_depth=2))
+  js.append(dict(name='M-own-write-blocked', stack='M', sc='ownwrite', cost=500, shards=4, shard_depth=2))
   return js
 
 
@@ -136,6 +137,36 @@ def make_body(job):
       gevent.sleep(25)
       out = judge(e, 'queued', 'MARKB', bq, script, mux=True)
       if out == 'timeout-unsent': cover('M:timeout-in-send-queue')
+      check('no-greenlet-error', not vtime.ERRORS)
+      c.DispatcherClose()
+    elif sc == 'ownwrite':
+      # the call's own write is blocked (back-pressure) when its deadline strikes; the write then completes on a
+      # connection that is still open: the request is on the wire, so the server must be told to discard it
+      T = fresh_real('T', 0, 6, lo_strict=True); W = fresh_real('write_blocks_for', 0, 8)
+      script = netm.Script(plan=lambda i, p: ('never',))
+      e.net.endpoint('a', 1, peer=lambda s: netm.MuxPeer(s, script), connect_delay=0.1)
+      c = stacks.mux_client('tcp://a:1', T)
+      conn = e.net.conns[0]
+      orig = conn.sendall
+      def slow_sendall(data):
+        if b'MARKA' in bytes(data): gevent.sleep(W)
+        return orig(data)
+      conn.sendall = slow_sendall
+      a = c.hi_async('MARKA')
+      hdecide(T < W)
+      gevent.sleep(25)
+      ev = stacks.events(a)
+      check('call.completed-once', len(ev) == 1)
+      if len(ev) == 1 and isinstance(ev[0][2], ScalesTimeout):
+        tc = ev[0][0]
+        writes = marker_writes(e.net, 'MARKA')
+        mytag = [tg for (t, p, m, aa, tg) in script.requests if aa == ['MARKA']]
+        if writes:
+          # bytes that were already being written when the deadline struck do reach the wire; the server has the
+          # request, so a Tdiscarded naming its tag must follow
+          named = [d for d in script.discards if mytag and d[2] == mytag[0]]
+          check('ownwrite.discard-sent-for-written-request', len(named) == 1)
+          if bool(T < W): cover('M:timeout-during-own-blocked-write')
       check('no-greenlet-error', not vtime.ERRORS)
       c.DispatcherClose()
     elif sc == 'wire':
